@@ -437,11 +437,14 @@ def program_tie(run, rnd, n):
     old = api._TRANSPILER
     api._TRANSPILER = make_transpiler()
     cases, skipped = [], 0
+    recorder = BlockVarsRecorder()
+    recorder.__enter__()
     try:
         mod = convrun.load_module(srcs)
         mod.__dict__.update(pure_world_globals())
         for i, src in enumerate(srcs):
             f = getattr(mod, 'f%d' % i)
+            recorder.src = i
             try:
                 with warnings.catch_warnings():
                     warnings.simplefilter('ignore')
@@ -456,17 +459,24 @@ def program_tie(run, rnd, n):
                 skipped += 1         # original and converted differ: reported by the oracle below with its own classification
                 continue
             ann, ret = progs_[i]
-            cases.append((src, '(%d%%nat, 1, 2, 3, %s, %s, %s)' % (i, _pg_coq(ann), coq_strs(ret), coq_nats(res))))
+
+            def simple(qs):
+                return coq_strs(sorted(str(q) for q in qs if re.match(r'^([abcxyzw]|[ni]\d+)$', str(q))))   # the program's own variables
+            real = '[' + '; '.join('(%s, %s, %s)' % (simple(r['modified']), simple(r['live_in']), simple(r['live_out']))
+                                   for r in recorder.records if r.get('src') == i and 'error' not in r) + ']'
+            cases.append((src, '(%d%%nat, 1, 2, 3, %s, %s, %s, %s)' % (i, _pg_coq(ann), coq_strs(ret), coq_nats(res), real)))
     finally:
+        recorder.__exit__()
         api._TRANSPILER = old
         convrun.cleanup()
     body = ['From Coq Require Import List String Bool Arith NArith.', 'Import ListNotations.',
             'Require Import MV.Ctrl.BlockSyntax MV.Generated.C02_gen MV.Ctrl.BlockVars MV.Ctrl.Tracing MV.Ctrl.TracingProg MV.Ctrl.TracingProgExec.',
             'Local Open Scope string_scope.', 'Local Open Scope N_scope.',
-            'Definition cases : list (nat * N * N * N * cblock * list name * list N) := [', ';\n'.join(c for _, c in cases), '].',
-            'Definition okc (c : nat * N * N * N * cblock * list name * list N) : bool :=',
-            '  match c with (_, a, b, c0, p, ret, e) => pcase_ok 400 a b c0 p ret e end.',
-            'Eval vm_compute in map (fun c => match c with (i, _, _, _, _, _, _) => i end) (filter (fun c => negb (okc c)) cases).']
+            'Definition cases : list (nat * N * N * N * cblock * list name * list N * list (list name * list name * list name)) := [',
+            ';\n'.join(c for _, c in cases), '].',
+            'Definition code (c : nat * N * N * N * cblock * list name * list N * list (list name * list name * list name)) : nat :=',
+            '  match c with (_, a, b, c0, p, ret, e, real) => pcase_code 400 a b c0 p ret e real end.',
+            'Eval vm_compute in flat_map (fun c => match c with (i, _, _, _, _, _, _, _) => if Nat.eqb (code c) 0 then [] else [i; code c] end) cases.']
     rc, out = vlib.coq_eval('C02', 'programs', '\n'.join(body), timeout=900)
     bad = vlib.parse_coq_list_of_nat(out) if rc == 0 else None
     run.extra['whole_program_cases'] = len(cases)
@@ -475,8 +485,12 @@ def program_tie(run, rnd, n):
     if bad is None:
         return 'evaluation of the whole-program tracing model failed: ' + out[-400:]
     if bad:
-        return ('the Coq whole-program tracing model (checker, tracing interpreter or native interpreter) and the real pipeline '
-                'disagree on:\n' + srcs[bad[0]])
+        why = {1: 'the loop header sets are not closed under the structural liveness of the model', 2: 'an interpreter ran out of fuel',
+               3: 'the tracing interpreter of the model returns other values than the real pipeline under the tracing backend',
+               4: 'the native interpreter of the model returns other values than the program',
+               5: 'the (modified, live-in, live-out) sets of the control statements in the model differ from the ones the real '
+                  '_get_block_vars was applied to (activity / liveness vs the structural analysis of the model)'}.get(bad[1], '?')
+        return 'the Coq whole-program tracing model and the real pipeline disagree (%s) on:\n%s' % (why, srcs[bad[0]])
     return None
 
 
